@@ -229,7 +229,7 @@ def wl_snippet(ctx, idx, rng):
     if form == 0:
         targ = gen.pick(rng, [t, float(t), np.float64(t)]) if isinstance(t, int) else t
     elif form == 1:
-        targ = (t / sig.sample_rate).to(gen.pick(rng, [u.s, u.ms, u.us]))
+        targ = (t / sig.sample_rate).to(gen.pick(rng, [u.s, u.ms, u.us, u.min, u.ns, u.hr]))
     else:
         targ = sig.start_time + (t / sig.sample_rate)
         sc = gen.pick(rng, [None, None, "tai", "tt", "utc"])
@@ -239,6 +239,7 @@ def wl_snippet(ctx, idx, rng):
     ctx.describe_case(desc)
     ctx.sample(desc)
     before = ctx.counters["snippet_events"]
+    n = gen.pick(rng, [n, n, np.int64(n), np.int32(n)])
     try:
         out = pb.snippet(sig, targ, n)
     except Exception:
